@@ -15,6 +15,9 @@ pub enum Op {
     Inc,
     Msg(u8),
     SetLen,
+    /// dec_length beyond zero / inc_length beyond u64::MAX: the length stops at the bound
+    DecLenBeyond,
+    IncLenBeyond,
     Finish,
     FinishMsg,
     /// finish_with_message("") / abandon_with_message(""): the supplied (empty) message replaces the old one
@@ -90,7 +93,7 @@ impl Rf {
         let cells = if !bar {
             String::new()
         } else {
-            let filled = if self.len == 0 || self.pos >= self.len { 10 } else { (10 * self.pos / self.len) as usize };
+            let filled = if self.len == 0 || self.pos >= self.len { 10 } else { (10u128 * self.pos as u128 / self.len as u128) as usize };
             let head = usize::from(self.pos > 0 && filled < 10);
             format!("{}{}{} ", "#".repeat(filled), ">".repeat(head), "-".repeat(10 - filled - head))
         };
@@ -115,7 +118,11 @@ impl Hist for C04s {
         if prefix.contains(&Op::DropBar) {
             return vec![];
         }
-        vec![Op::Burn, Op::Idle, Op::Tick, Op::Inc, Op::Msg(0), Op::Msg(1), Op::SetLen, Op::Finish, Op::FinishMsg, Op::FinishMsgEmpty, Op::AbandonMsgEmpty, Op::FinishClear, Op::Abandon, Op::AbandonMsg, Op::FinishUsingStyle, Op::DropBar, Op::Iter(0), Op::Iter(1), Op::Iter(3), Op::IterFold(0), Op::IterFold(3), Op::Reset, Op::Println(0), Op::Println(1), Op::SuspendOut, Op::SuspendEmpty]
+        vec![Op::Burn, Op::Idle, Op::Tick, Op::Inc, Op::Msg(0), Op::Msg(1), Op::SetLen, Op::DecLenBeyond, Op::IncLenBeyond, Op::Finish, Op::FinishMsg, Op::FinishMsgEmpty, Op::AbandonMsgEmpty, Op::FinishClear, Op::Abandon, Op::AbandonMsg, Op::FinishUsingStyle, Op::DropBar, Op::Iter(0), Op::Iter(1), Op::Iter(3), Op::IterFold(0), Op::IterFold(3), Op::Reset, Op::Println(0), Op::Println(1), Op::SuspendOut, Op::SuspendEmpty]
+            .into_iter()
+            // (the bar reference is exact for small lengths only)
+            .filter(|o| !(self.bar && *o == Op::IncLenBeyond))
+            .collect()
     }
 
     fn run(&self, hist: &[Op], stats: &mut Stats) -> Verdict {
@@ -159,6 +166,8 @@ impl Hist for C04s {
                     Op::Inc => b.inc(1),
                     Op::Msg(k) => b.set_message(if *k == 0 { "m" } else { "a longer message that wraps!!" }),
                     Op::SetLen => b.set_length(9),
+                    Op::DecLenBeyond => b.dec_length(20),
+                    Op::IncLenBeyond => b.inc_length(u64::MAX - 3),
                     Op::Finish => b.finish(),
                     Op::FinishMsg => b.finish_with_message("done"),
                     Op::FinishMsgEmpty => b.finish_with_message(""),
@@ -205,9 +214,11 @@ impl Hist for C04s {
             drop_finished = false;
             match op {
                 Op::Burn | Op::Idle | Op::Tick => {}
-                Op::Inc => rf.pos += 1,
+                Op::Inc => rf.pos = rf.pos.wrapping_add(1),
                 Op::Msg(k) => rf.msg = if *k == 0 { "m".into() } else { "a longer message that wraps!!".into() },
                 Op::SetLen => rf.len = 9,
+                Op::DecLenBeyond => rf.len = rf.len.saturating_sub(20),
+                Op::IncLenBeyond => rf.len = rf.len.saturating_add(u64::MAX - 3),
                 Op::Finish => {
                     rf.apply_fin(0);
                     must_paint = true
@@ -253,7 +264,7 @@ impl Hist for C04s {
                     }
                 }
                 Op::Iter(k) | Op::IterFold(k) => {
-                    rf.pos += *k as u64;
+                    rf.pos = rf.pos.wrapping_add(*k as u64);
                     if !rf.finished {
                         rf.apply_fin(self.fin);
                         must_paint = true;
